@@ -1,5 +1,5 @@
 CONSTANTS NN = 2
- MaxEntries = 4
+ MaxEntries = 5
  MaxDepth = 3
  Flaw_RootSymlinkCopied = TRUE
  Emit = TRUE
